@@ -445,6 +445,49 @@ def l15(led, rid, ctx):
     led.floor(rid, "bound tests of other variables guarding a propagation", n, 35)
 
 
+def l16(led, rid, ctx):
+    """SIBLINGS: the three `…_at_trail_position` queries of a domain (which lazy explanations use to
+    read the state at propagation time) all treat the entry made AT the asked position as visible:
+    every comparison of an update's trail position with the asked position is `<=`"""
+    from ..flow import show
+    lib = ctx.lib
+    n = 0
+    FLIP = {"Lt": "Gt", "Gt": "Lt", "Le": "Ge", "Ge": "Le"}
+    for f in lib.fns.values():
+        if not (f.self_adt or "").endswith("IntegerDomain") or not f.name.endswith("_at_trail_position") \
+                or f.kind == "Closure" or "/tests" in f.file:
+            continue
+        for g in f.with_closures():
+            R = resolver(g)
+            for b in g.blocks:
+                for st in b["stmts"]:
+                    if st["s"] != "assign" or st["rv"]["r"] != "binop" or st["rv"]["op"] not in FLIP:
+                        continue
+                    e = R.rvalue(st["rv"])
+                    l, r, op = peel(e.b, calls=None), peel(e.c, calls=None), e.a
+
+                    def is_update(x):
+                        return x.k == "proj" and x.b and x.b[-1].get("name") == "trail_position"
+
+                    def is_param(x):
+                        if is_update(x):
+                            return False
+                        sx = show(x)
+                        return x.k in ("arg", "proj", "local") and ("arg" in sx) and not sx.endswith(".trail_position")
+                    if is_update(r) and is_param(l):
+                        l, r, op = r, l, FLIP[op]
+                    if not (is_update(l) and is_param(r)):
+                        continue
+                    n += 1
+                    led.check(op == "Le", rid, "%s:update-visible-at-its-own-position" % f.name,
+                              "%s:%d" % (g.file, st["line"]), "update.trail_position <= trail_position",
+                              "IntegerDomain::%s compares an update's trail position with the asked position "
+                              "using %s where its siblings use <=: the change made by the trail entry at exactly "
+                              "that position is invisible to this query only, so a lazy explanation mixes two "
+                              "states and can state a fact that does not hold" % (f.name, op))
+    led.floor(rid, "trail-position comparisons in the …_at_trail_position queries", n, 3)
+
+
 def l12(led, rid, ctx):
     """CACHE-INVALIDATION: the cumulative propagation handler caches the explanation of `the
     current profile`; every way from one use of the cache to the next that passes the point where
@@ -533,3 +576,4 @@ def run(ctx, led):
     from . import C07 as _C07
     run_rule(led, "L14", "the nogood a lazy reason refers to is never deleted while it is the reason of a trail entry (shared with C07-J1)", _C07.j1, ctx)
     run_rule(led, "L15", "the reason implies the branch: every tested bound of another variable that guards a propagation is stated in the reason", l15, ctx)
+    run_rule(led, "L16", "SIBLINGS: the `…_at_trail_position` queries agree on the inclusive position convention", l16, ctx)
